@@ -123,8 +123,13 @@ def run(ctx):
     # unprivileged load/store variants in privileged modes: checked with User permissions
     utasks = [(unpriv_task, dict(name='unpriv-v%d-%d' % (6 + i % 2, i), seed=ctx.seed + 900 + i, n=400 if q else 8000,
                                  cfg={'arch_version': 6 + i % 2})) for i in range(8)]
+    # the same through the MMU: short-descriptor tables (sections, supersections with extended addresses, pages; AP/APX,
+    # domains, DACR client / manager) accessed from User mode and by unprivileged translate_address() calls
+    from . import c15
+    utasks += [(c15.vmsa_task, dict(name='unpriv-vmsa-%d' % i, seed=ctx.seed + 950 + i, tables=3 if q else 60, per_table=40))
+               for i in range(8)]
     ugroups = C.parallel(_dispatch, utasks)
-    ures = C.judge_groups(ctx, ugroups, unpriv_filter, rnd=rnd,
+    ures = C.judge_groups(ctx, ugroups, unpriv_filter, rnd=rnd, chunk=1500,
                           site_of=lambda e, v: e['act']['n'] if e['act']['n'] != 'Step' else (e.get('cls') or v['path']),
                           tags_of=lambda g, e, v: dict(g.meta.get(e['id'], {}), enc=v['path'].split(':')[-1], out=e['out']))
     uab = sum(1 for g, e, v in ures if e['out'] == 'dabort')
